@@ -277,6 +277,13 @@ def ProjItem.out : ProjItem → Var
   | .var v => v
   | .agg _ _ o => o
 
+def ProjItem.isAgg : ProjItem → Bool
+  | .var _ => false
+  | .agg _ _ _ => true
+
+/-- does the projection contain an aggregate? -/
+def hasAgg (ps : List ProjItem) : Bool := ps.any ProjItem.isAgg
+
 def intToVal (i : Int) : Val := toString i
 
 /-- aggregate of the *parsable* values of a group; results are integers in the generated fragment
@@ -565,8 +572,7 @@ def columns (q : Select) : List Var :=
     columns → limit → project.  Output: one list of optional values per row, in column order. -/
 def finalizeSelect (q : Select) (rows : List Row) : List (List (Option Val)) :=
   let cols := columns q
-  let hasAgg := (q.spec.proj.getD []).any (fun p => match p with | .agg .. => true | _ => false)
-  let rows := if hasAgg then aggregate (q.spec.proj.getD []) q.spec.groupVars rows else rows
+  let rows := if hasAgg (q.spec.proj.getD []) then aggregate (q.spec.proj.getD []) q.spec.groupVars rows else rows
   let rows := if q.spec.order.isEmpty then rows else sortRows q.spec.order rows
   let key (r : Row) := cols.map (Row.get r)
   let rows := if q.spec.distinct then
